@@ -154,34 +154,40 @@ inline void hook(int site, int64_t a, int64_t b, const void* p) {
     }
     const bool is_loop = site == SITE_POOL_LOOP || site == SITE_DUAL_LOOP || site == SITE_INDEX_LOOP;
     if (s.logging && (!is_loop || s.log_loops)) s.log.push_back({site, a, b, t.tid, id, parent});
-    // ---- cancel at the k-th visit
-    if (site == s.cancel_site && (s.cancel_a < 0 || s.cancel_a == a) && (s.cancel_b < 0 || s.cancel_b == b)) {
-        if (++s.visits == s.cancel_k && s.cancel_flag && !s.cancel_raised) {
-            s.cancel_flag->store(true);
-            s.cancel_raised = true;
-            if (s.logging) s.log.push_back({1000, site, s.visits, t.tid, -1, -1});
+    // ---- cancel at the k-th visit.  In controlled mode the flag is raised only while this thread holds
+    // the token (after the scheduling decision), so that the raise is serialised with the segments.
+    auto maybe_cancel = [&]() {
+        if (site == s.cancel_site && (s.cancel_a < 0 || s.cancel_a == a) && (s.cancel_b < 0 || s.cancel_b == b)) {
+            if (++s.visits == s.cancel_k && s.cancel_flag && !s.cancel_raised) {
+                s.cancel_flag->store(true);
+                s.cancel_raised = true;
+                if (s.logging) s.log.push_back({1000, site, s.visits, t.tid, -1, -1});
+            }
         }
-    }
-    if (!sched) return;
+    };
+    if (!sched) { maybe_cancel(); return; }
     // ---- cooperative scheduler
     const int me = t.tid;
     const bool leaving = exit_site(site);
     if (s.running == me) {
+        if (leaving) maybe_cancel();
         std::vector<int> cand(s.waiting.begin(), s.waiting.end());
         if (!leaving) cand.push_back(me);
         if (cand.empty()) { s.running = -1; return; }
         int next = cand[s.sched_rng() % cand.size()];
-        if (next == me) return;
+        if (next == me) { maybe_cancel(); return; }
         s.running = next; s.waiting.erase(next);
         s.cv.notify_all();
         if (leaving) return;
         s.waiting.insert(me);
         s.cv.wait(l, [&] { return s.running == me; });
+        maybe_cancel();
     } else {
-        if (leaving) return;
-        if (s.running == -1) { s.running = me; return; }
+        if (leaving) { maybe_cancel(); return; }
+        if (s.running == -1) { s.running = me; maybe_cancel(); return; }
         s.waiting.insert(me);
         s.cv.wait(l, [&] { return s.running == me; });
+        maybe_cancel();
     }
 }
 
